@@ -41,6 +41,7 @@ class Opts:
         self.p_create_links = 0.3
         self.leaf_inputs = [0, 1, 1, 1, 2]
         self.p_type_override = 0.1
+        self.p_param_res_clash = 0.12
         self.size_thresholds = (0.3, 0.55, 0.65)   # unsized | fresh symbol | repeated symbol | (constant/compound when the incoming size is known)
         self.qubit_mode = False     # generate local_ancillae / positive sizes for the highwater property
         self.__dict__.update(kw)
@@ -220,6 +221,10 @@ def _decorate(rng, node, opts, is_root, under_rep=False, no_mult=False):
     """params, locals, resources, links (top-down so that a parent's scope exists when links are drawn)"""
     k = rng.randint(1, 3) if (is_root or rng.random() < 0.8) else 0
     node["input_params"] = rng.sample(POOL, k)
+    if k and rng.random() < opts.p_param_res_clash:
+        # a parameter named like a resource: `child.T` then names both the child's parameter (promoted / deep-linked) and the
+        # child's resource in the parent's scope
+        node["input_params"][rng.randrange(k)] = rng.choice(sorted(RES))
     scope = list(node["input_params"])
     nloc = rng.choice([0, 0, 1, 2]) if scope else 0
     for i in range(nloc):
